@@ -519,7 +519,7 @@ def rule_contains_kind(ctx):
             for c in f.calls():
                 t0 = f.term(c, inline=True)
                 tr = resolve_calls(f.unit, t0)
-                if tr != t0 and kinds.kind_of_term(tr):
+                if f.n(c).get('ct') not in kinds.LOWER + kinds.UPPER and kinds.kind_of_term(tr):
                     helper_sites.append((c, tr))
             if helper_sites:
                 for (c, tr) in helper_sites:
